@@ -176,6 +176,29 @@ def j_extreme(kind, pre, ln):
     return None
 
 
+def j_extreme_weak(s):
+    """what C01/C02 still demand of a queue whose ORDER is unspecified (leaked iter_mut guard, caught panic inside an operation:
+    C10 allows any order then): a reported extreme is a stored element, and None is reported iff nothing is stored."""
+    if s is None or s.pk is None or s.pk == "panic":
+        return None
+    cont = s.contents()
+    for e in s.pk:
+        if e is None:
+            if cont:
+                return "a peek reports None while %d element(s) are stored" % len(cont)
+        else:
+            k, pl, p = e
+            if k not in cont or cont[k] != (pl, p):
+                return "a peek reports %s, which is not stored" % (e,)
+    return None
+
+
+def j_extreme_weak_line(kind, pre, ln):
+    if ln.fault or ln.snap is None or ln.op == "load":
+        return None
+    return j_extreme_weak(ln.snap)
+
+
 def expected(kind, pre, ln):
     """C03/C07/C08/C11/C12/C15/C16: the contents and result the abstract item->priority map prescribes.
     Returns (expected contents | None if unconstrained, message | None)."""
@@ -507,18 +530,12 @@ def log2(n):
     return n.bit_length() - 1 if n > 0 else 0
 
 
-def j_cost(kind, pre, ln):
-    """C05: comparison counts against the bounds PROVED for the model in PQ/Props/C05.lean (n = size before the
-    operation, lg = floor(log2)): max-heap push 3lg(n+1), pop/pop_if 2lg n, change_priority/_by/remove 3lg n,
+def cost_bound(kind, op, args, n, m):
+    """the comparison bound PROVED for the model in PQ/Props/C05.lean (n = size before the operation, m = size after,
+    lg = floor(log2)): max-heap push 3lg(n+1), pop/pop_if 2lg n, change_priority/_by/remove 3lg n,
     push_increase/decrease 3lg(n+1)+1, rebuilds 2n; min-max heap push 8lg(n+1)+8, pop_min/_if 4lg n+4, pop_max 4lg n+5,
     pop_max_if 7lg n+9, change_priority/_by/remove 8lg n+8, push_increase/decrease 8lg(n+1)+9, rebuilds 7n;
-    peeks and lookups 0, peek_max at most 1."""
-    if ln.fault or ln.snap is None or ln.snap.dt is None or pre is None:
-        return None
-    n = len(pre.map)
-    m = len(ln.snap.map)
-    dt = ln.snap.dt
-    op = ln.op
+    peeks and lookups 0, peek_max at most 1.  None = no bound claimed for this operation."""
     pq = kind == "pq"
     lg = log2
     c = 2 if pq else 7
@@ -547,23 +564,60 @@ def j_cost(kind, pre, ln):
         bound = c * m
     elif op in ("retain", "retain_mut", "iter_mut"):
         bound = c * m
-        if op == "iter_mut" and ln.args and ln.args[0] == "forget":
+        if op == "iter_mut" and args and args[0] == "forget":
             # a leaked guard never rebuilds — unless the program consumed the iterator itself (`last()` / `count()` take it
             # by value: its Drop runs inside the call and rebuilds)
-            calls = [ln.args[2 + 5 * j] for j in range(int(ln.args[1]))]
+            calls = [args[2 + 5 * j] for j in range(int(args[1]))]
             if not any(cc in ("z", "c") for cc in calls):
                 bound = 0
     elif op == "convert":
         bound = (7 if pq else 2) * m       # the TARGET kind rebuilds
     elif op == "serde_rt":
-        bound = (2 if ln.args[0] == "pq" else 7) * m
+        bound = (2 if args[0] == "pq" else 7) * m
     elif op == "extend":
-        es, _ = entries(ln.args, 2)
+        es, _ = entries(args, 2)
         bound = max(c * m, len(es) * (3 * lg(m) if pq else 8 * lg(m) + 8))
     elif op == "append":
         bound = c * m      # building the other queue is outside the measured window
+    return bound
+
+
+def j_cost(kind, pre, ln):
+    """C05: comparison counts against the bounds PROVED for the model in PQ/Props/C05.lean (see cost_bound)."""
+    if ln.fault or ln.snap is None or ln.snap.dt is None or pre is None:
+        return None
+    n = len(pre.map)
+    m = len(ln.snap.map)
+    dt = ln.snap.dt
+    bound = cost_bound(kind, ln.op, ln.args, n, m)
     if bound is not None and dt > bound:
-        return "%s on %d elements performed %d comparisons; the proved bound is %d" % (op, n, dt, bound)
+        return "%s on %d elements performed %d comparisons; the proved bound is %d" % (ln.op, n, dt, bound)
+    return None
+
+
+def j_cost_crashed(kind, pre, post, op, args):
+    """C05 for a call interrupted by a caught user panic (`!cmp<k>` / `!cb<k>`): an interrupted call has performed a prefix of
+    the comparisons of the completed call, and nothing compares while unwinding, so the bound of the completed call applies.
+    The size the completed call would have reached is bounded by the size before plus the number of pairs offered."""
+    if post is None or post.dt is None or pre is None:
+        return None
+    n = len(pre.map)
+    extra = 0
+    try:
+        if op in ("from_vec",):
+            extra = int(args[0])
+        elif op in ("extend", "from_iter"):
+            extra = len(entries(args, 2)[0])
+        elif op == "append":
+            extra = len(entries(args, 1)[0])
+    except Exception:
+        return None
+    m = max(n, len(post.map)) + extra
+    if op in ("from_vec", "from_iter"):
+        n = m
+    bound = cost_bound(kind, op, args, max(n, 1), max(m, 1))
+    if bound is not None and post.dt > bound:
+        return "%s on %d elements, interrupted by a caught panic, performed %d comparisons (unwinding included); the bound proved for the completed call is %d" % (op, n, post.dt, bound)
     return None
 
 
@@ -802,11 +856,21 @@ def judge_case(prop, kind, lines):
                 # else (contents of later operations, iterator contracts, well-formedness) is judged as usual
                 try:
                     kk, _, core = text.partition(" | ")[2].strip().partition(" ")
+                    kpre, ppre = k, pre
                     pre = parse_snap(core)
                     k = kk
                 except Exception as ex:
                     return (idx, "unparsable post-fault state: %s" % ex)
                 order_unspecified = True
+                if prop == "C05":
+                    msg = j_cost_crashed(kpre, ppre, pre, ln.args[0], ln.args[1:])
+                    if msg:
+                        return (idx, msg)
+                if prop in ("C01", "C02"):
+                    # whatever the order: a reported extreme is a stored element, and None is reported iff nothing is stored
+                    msg = j_extreme_weak(pre)
+                    if msg:
+                        return (idx, "after a caught panic: " + msg)
                 if prop == "C10":
                     msg = j_wf(k, None, type("L", (), {"fault": False, "snap": pre, "op": ln.op, "args": [], "res": ""})())
                     if msg:
@@ -823,7 +887,7 @@ def judge_case(prop, kind, lines):
         ln.unordered = order_unspecified
         for j in JUDGES.get(prop, []):
             if order_unspecified and j is j_extreme:
-                continue
+                j = j_extreme_weak_line
             try:
                 msg = j(k, pre, ln)
             except Exception as ex:
